@@ -2078,7 +2078,15 @@ def _numpy_more(I, name):
             return lambda sh, val, **k: filled(sh, val)
         return lambda sh, *a, **k: filled(sh, sp.Integer(1 if name == "ones" else 0))
     if name in ("full_like", "empty_like"):
-        return lambda v, val=sp.Integer(0), **k: ew(lambda x: val, v)
+        def like(v, val=sp.Integer(0), dtype=None, **k):
+            # the result has the dtype of the prototype: an array of Python/numpy integers truncates the fill value
+            fl = flat(v) if isinstance(_tovec(v), Vec) else [v]
+            if dtype is not None:
+                val = _as_dtype(I, val, dtype, False)
+            elif fl and all(isinstance(x, (int, sp.Integer)) and not isinstance(x, bool) for x in fl):
+                val = _as_dtype(I, val, "int", False)
+            return ew(lambda x: val, v)
+        return like
     if name == "cumsum":
         def cumsum(v, axis=None, **k):
             v = _tovec(v)
